@@ -122,9 +122,12 @@ impl<'de> SerdeDeserializer<'de> for &mut Deserializer<'de> {
 
     fn deserialize_i8<V: Visitor<'de>>(self, visitor: V) -> Result<V::Value> {
         match self.term {
-            OwnedTerm::Integer(i) => i8::try_from(*i)
-                .map_err(|_| Error::InvalidValue(format!("integer {} out of range for i8", i)))
-                .and_then(|v| visitor.visit_i8(v)),
+            OwnedTerm::Integer(_) | OwnedTerm::BigInt(_) if self.term.as_integer().is_some() => {
+                let i = self.term.as_integer().unwrap_or_default();
+                i8::try_from(i)
+                    .map_err(|_| Error::InvalidValue(format!("integer {} out of range for i8", i)))
+                    .and_then(|v| visitor.visit_i8(v))
+            }
             _ => Err(Error::TypeMismatch {
                 expected: "integer".into(),
                 found: format!("{:?}", self.term),
@@ -134,9 +137,12 @@ impl<'de> SerdeDeserializer<'de> for &mut Deserializer<'de> {
 
     fn deserialize_i16<V: Visitor<'de>>(self, visitor: V) -> Result<V::Value> {
         match self.term {
-            OwnedTerm::Integer(i) => i16::try_from(*i)
-                .map_err(|_| Error::InvalidValue(format!("integer {} out of range for i16", i)))
-                .and_then(|v| visitor.visit_i16(v)),
+            OwnedTerm::Integer(_) | OwnedTerm::BigInt(_) if self.term.as_integer().is_some() => {
+                let i = self.term.as_integer().unwrap_or_default();
+                i16::try_from(i)
+                    .map_err(|_| Error::InvalidValue(format!("integer {} out of range for i16", i)))
+                    .and_then(|v| visitor.visit_i16(v))
+            }
             _ => Err(Error::TypeMismatch {
                 expected: "integer".into(),
                 found: format!("{:?}", self.term),
@@ -146,9 +152,12 @@ impl<'de> SerdeDeserializer<'de> for &mut Deserializer<'de> {
 
     fn deserialize_i32<V: Visitor<'de>>(self, visitor: V) -> Result<V::Value> {
         match self.term {
-            OwnedTerm::Integer(i) => i32::try_from(*i)
-                .map_err(|_| Error::InvalidValue(format!("integer {} out of range for i32", i)))
-                .and_then(|v| visitor.visit_i32(v)),
+            OwnedTerm::Integer(_) | OwnedTerm::BigInt(_) if self.term.as_integer().is_some() => {
+                let i = self.term.as_integer().unwrap_or_default();
+                i32::try_from(i)
+                    .map_err(|_| Error::InvalidValue(format!("integer {} out of range for i32", i)))
+                    .and_then(|v| visitor.visit_i32(v))
+            }
             _ => Err(Error::TypeMismatch {
                 expected: "integer".into(),
                 found: format!("{:?}", self.term),
@@ -157,9 +166,10 @@ impl<'de> SerdeDeserializer<'de> for &mut Deserializer<'de> {
     }
 
     fn deserialize_i64<V: Visitor<'de>>(self, visitor: V) -> Result<V::Value> {
-        match self.term {
-            OwnedTerm::Integer(i) => visitor.visit_i64(*i),
-            _ => Err(Error::TypeMismatch {
+        // integers outside the i32 range come off the wire as BigInt
+        match self.term.as_integer() {
+            Some(i) => visitor.visit_i64(i),
+            None => Err(Error::TypeMismatch {
                 expected: "integer".into(),
                 found: format!("{:?}", self.term),
             }),
@@ -168,9 +178,12 @@ impl<'de> SerdeDeserializer<'de> for &mut Deserializer<'de> {
 
     fn deserialize_u8<V: Visitor<'de>>(self, visitor: V) -> Result<V::Value> {
         match self.term {
-            OwnedTerm::Integer(i) => u8::try_from(*i)
-                .map_err(|_| Error::InvalidValue(format!("integer {} out of range for u8", i)))
-                .and_then(|v| visitor.visit_u8(v)),
+            OwnedTerm::Integer(_) | OwnedTerm::BigInt(_) if self.term.as_integer().is_some() => {
+                let i = self.term.as_integer().unwrap_or_default();
+                u8::try_from(i)
+                    .map_err(|_| Error::InvalidValue(format!("integer {} out of range for u8", i)))
+                    .and_then(|v| visitor.visit_u8(v))
+            }
             _ => Err(Error::TypeMismatch {
                 expected: "integer".into(),
                 found: format!("{:?}", self.term),
@@ -180,9 +193,12 @@ impl<'de> SerdeDeserializer<'de> for &mut Deserializer<'de> {
 
     fn deserialize_u16<V: Visitor<'de>>(self, visitor: V) -> Result<V::Value> {
         match self.term {
-            OwnedTerm::Integer(i) => u16::try_from(*i)
-                .map_err(|_| Error::InvalidValue(format!("integer {} out of range for u16", i)))
-                .and_then(|v| visitor.visit_u16(v)),
+            OwnedTerm::Integer(_) | OwnedTerm::BigInt(_) if self.term.as_integer().is_some() => {
+                let i = self.term.as_integer().unwrap_or_default();
+                u16::try_from(i)
+                    .map_err(|_| Error::InvalidValue(format!("integer {} out of range for u16", i)))
+                    .and_then(|v| visitor.visit_u16(v))
+            }
             _ => Err(Error::TypeMismatch {
                 expected: "integer".into(),
                 found: format!("{:?}", self.term),
@@ -192,9 +208,12 @@ impl<'de> SerdeDeserializer<'de> for &mut Deserializer<'de> {
 
     fn deserialize_u32<V: Visitor<'de>>(self, visitor: V) -> Result<V::Value> {
         match self.term {
-            OwnedTerm::Integer(i) => u32::try_from(*i)
-                .map_err(|_| Error::InvalidValue(format!("integer {} out of range for u32", i)))
-                .and_then(|v| visitor.visit_u32(v)),
+            OwnedTerm::Integer(_) | OwnedTerm::BigInt(_) if self.term.as_integer().is_some() => {
+                let i = self.term.as_integer().unwrap_or_default();
+                u32::try_from(i)
+                    .map_err(|_| Error::InvalidValue(format!("integer {} out of range for u32", i)))
+                    .and_then(|v| visitor.visit_u32(v))
+            }
             _ => Err(Error::TypeMismatch {
                 expected: "integer".into(),
                 found: format!("{:?}", self.term),
